@@ -189,6 +189,157 @@ split.
 - by [].
 Qed.
 
+
+(* ---------------------------------------------------------------------------------------------- *)
+(* Per-member independence.  The REFERENCE recurrence: Lanczos for ONE symmetric matrix Am and ONE start vector v, on
+   MathComp column vectors -- a function of (Am, v) and nothing else.  State after k steps: (q_k, q_{k-1}, beta_{k-1}). *)
+Section Reference.
+Variable v : 'cV[F]_n.
+
+Fixpoint rstate (k : nat) : 'cV[F]_n * 'cV[F]_n * F :=
+  if k is k'.+1 then
+    let: (qk, qp, bp) := rstate k' in
+    let r := Am *m qk - bp *: qp in
+    let a := dotv qk r in
+    let r1 := r - a *: qk in
+    let b := Num.sqrt (dotv r1 r1) in
+    (b^-1 *: r1, qk, b)
+  else ((Num.sqrt (dotv v v))^-1 *: v, 0, 0).
+Definition rq (k : nat) : 'cV[F]_n := (rstate k).1.1.
+Definition rqp (k : nat) : 'cV[F]_n := (rstate k).1.2.
+Definition rbp (k : nat) : F := (rstate k).2.
+Definition ra (k : nat) : F := dotv (rq k) (Am *m rq k - rbp k *: rqp k).        (* alpha_k *)
+Definition rr1 (k : nat) : 'cV[F]_n := Am *m rq k - rbp k *: rqp k - ra k *: rq k.
+Definition rb (k : nat) : F := Num.sqrt (dotv (rr1 k) (rr1 k)).                    (* beta_k *)
+
+Lemma rstateS k : rstate k.+1 = ((rb k)^-1 *: rr1 k, rq k, rb k).
+Proof. by rewrite /rb /rr1 /ra /rq /rqp /rbp /=; case: (rstate k) => [[qk qp] bp]. Qed.
+Lemma rqS k : rq k.+1 = (rb k)^-1 *: rr1 k. Proof. by rewrite /rq rstateS. Qed.
+Lemma rqpS k : rqp k.+1 = rq k. Proof. by rewrite /rqp rstateS. Qed.
+Lemma rbpS k : rbp k.+1 = rb k. Proof. by rewrite /rbp rstateS. Qed.
+
+(* column c of a state agrees with the reference on its first w vectors *)
+Definition RINV (k : nat) (st : lz_state F) :=
+  forall w, (0 < w)%N -> (w <= k.+1)%N -> G w st ->
+    forall j, (j < w)%N ->
+      [/\ qv st j = rq j, ((j < k)%N -> al st j = ra j) & ((j.+1 < w)%N -> be st j = rb j)].
+Definition RFIN (k : nat) (st : lz_state F) :=
+  forall w, (0 < w)%N -> (w <= k.+1)%N -> G w st ->
+    forall j, (j < w)%N ->
+      [/\ qv st j = rq j, al st j = ra j & ((j.+1 < w)%N -> be st j = rb j)].
+
+(* the quantities of the body of iteration k in terms of the reference *)
+Lemma body_ref k st : (0 < k)%N -> t_sym ArR st.2 -> INV k st -> RINV k st -> G k.+1 st ->
+  [/\ s_a n mm c k st = ra k, s_r1 n mm c k st = rr1 k & s_r2 n mm c k st = rr1 k].
+Proof.
+case: k => [//|k'] k0 Hs HI HR HG.
+have [Hon Har _ _] := HI k'.+2 (ltn0Sn _) (leqnn _) HG.
+have [Ek _ _] := HR k'.+2 (ltn0Sn _) (leqnn _) HG k'.+1 (leqnn _).
+have hk1 : (k' < k'.+2)%N by lia.
+have [Ek1 _ Eb1] := HR k'.+2 (ltn0Sn _) (leqnn _) HG k' hk1.
+have Ebp : tget ArR st.2 k'.+1 k' c = rbp k'.+1 by rewrite Hs -/(be st k') rbpS; apply: Eb1.
+have Eqp : qv st k' = rqp k'.+1 by rewrite Ek1 rqpS.
+have Ea : s_a n mm c k'.+1 st = ra k'.+1.
+  by rewrite /s_a /s_r (s_wE mm_lin) /= Ebp Eqp Ek.
+have E1 : s_r1 n mm c k'.+1 st = rr1 k'.+1.
+  by rewrite /s_r1 Ea /s_r (s_wE mm_lin) /= Ebp Eqp Ek.
+by split=> //; rewrite (s_r2_r1 hc mm_lin Am_sym k0 Hs Hon Har).
+Qed.
+
+Lemma body_RFIN k st : (0 < k)%N -> t_sym ArR st.2 -> INV k st -> RINV k st -> RFIN k (body k st).1.
+Proof.
+move=> k0 Hs HI HR w w0 hw HG j hj.
+have HGs := G_frame hw HG.
+have [E1 E2 E3] := HR w w0 hw HGs j hj.
+have hjk : (j <= k)%N by lia.
+split.
+- by rewrite (qv_frame n num_iter mm tol brk n_extra hc st hjk).
+- have [Ej|Nj] := eqVneq j k.
+    have Ew : w = k.+1 by lia.
+    rewrite Ej (body_alpha n num_iter mm tol brk n_extra hc k st).
+    by have [-> _ _] := body_ref k0 Hs HI HR (eq_ind _ (fun w => G w st) HGs _ Ew).
+  have hjk' : (j < k)%N by lia.
+  by rewrite (al_frame n num_iter mm tol brk n_extra hc st hjk') E2.
+- move=> hj1.
+  have hjk' : (j < k)%N by lia.
+  by rewrite (be_frame n num_iter mm tol brk n_extra hc st hjk') E3.
+Qed.
+
+Lemma body_RINV k st : (0 < k)%N -> (k.+1 < num_iter)%N -> t_sym ArR st.2 -> INV k st -> RINV k st ->
+  RINV k.+1 (body k st).1.
+Proof.
+move=> k0 hk Hs HI HR w w0 hw HG j hj.
+have HF := body_RFIN k0 Hs HI HR.
+have [Ew|Nw] := eqVneq w k.+2; last first.
+  have hw' : (w <= k.+1)%N by lia.
+  have [E1 E2 E3] := HF w w0 hw' HG j hj.
+  by split.
+have HG1 : G k.+1 (body k st).1 by move=> i hi; apply: HG; lia.
+have HGs := G_frame (leqnn _) HG1.
+have [Hon _ _ _] := HI k.+1 (ltn0Sn k) (leqnn _) HGs.
+have [Ea E1 E2] := body_ref k0 Hs HI HR HGs.
+have Eb : be (body k st).1 k = rb k.
+  by rewrite (body_beta n mm tol brk n_extra hc st hk) /s_b E2.
+have Hb : s_b n mm c k st != 0.
+  by rewrite -(body_beta n mm tol brk n_extra hc st hk); apply: HG; lia.
+have [Ej|Nj] := eqVneq j k.+1.
+  rewrite Ej; split.
+  - by rewrite (body_newq tol brk n_extra hc hk Hon Hb) /s_r3 /s_b E2 rqS.
+  - by rewrite ltnn.
+  - by lia.
+have hj' : (j < k.+1)%N by lia.
+have [F1 F2 F3] := HF k.+1 (ltn0Sn k) (leqnn _) HG1 j hj'.
+split=> //.
+move=> _; have [Ejk|Njk] := eqVneq j k; first by rewrite Ejk.
+by apply: F3; lia.
+Qed.
+
+Lemma loop_RFIN fuel k st :
+  (0 < fuel)%N -> (k + fuel = num_iter)%N -> (0 < k)%N -> t_sym ArR st.2 -> INV k st -> RINV k st ->
+  let r := loop fuel k st in RFIN r.2 r.1.
+Proof.
+move=> f0 Hk k0 Hs HI HR.
+have := @lz_loop_rule _ ArR n C num_iter mm tol brk n_extra
+          (fun k st => [/\ (0 < k)%N, t_sym ArR st.2, INV k st & RINV k st]) (fun k st _ => RFIN k st)
+          _ fuel k st f0 Hk k0 (And4 k0 Hs HI HR).
+case; last by move=> b [].
+move=> k' st' _ kn' [k0' Hs' HI' HR']; split; first exact: body_RFIN.
+move=> hk; split=> //; [exact: body_sym | exact: body_INV | exact: body_RINV].
+Qed.
+
+End Reference.
+
+Lemma stop_RFIN init : cv n init c != 0 -> RFIN (cv n init c) 0 (lz_init_stop ArR n C num_iter mm init).
+Proof.
+move=> Hv w w0 hw HG j hj.
+have Ej : j = 0%N by lia.
+have Hw0 : Am *m i_q0 n c init = i_w n C mm c init by rewrite /i_w mm_lin (Ecdiv n hc) (Ecnorm n hc).
+rewrite Ej; split.
+- by rewrite stop_q0.
+- by rewrite stop_alpha // /ra /rq /rqp /rbp /= scale0r subr0 -/(i_q0 n c init) Hw0.
+- by lia.
+Qed.
+
+Lemma init_RINV init : cv n init c != 0 -> RINV (cv n init c) 1 (lz_init ArR n C num_iter mm init).
+Proof.
+move=> Hv w w0 hw HG j hj.
+have Hw0 : Am *m i_q0 n c init = i_w n C mm c init by rewrite /i_w mm_lin (Ecdiv n hc) (Ecnorm n hc).
+have Eq0 : qv (lz_init ArR n C num_iter mm init) 0 = rq (cv n init c) 0 by rewrite (init_q0 n num_iter mm hc).
+have Ea0 : i_a n C mm c init = ra (cv n init c) 0.
+  by rewrite /ra /rq /rqp /rbp /= scale0r subr0 -/(i_q0 n c init) Hw0.
+have Er0 : i_r1 n C mm c init = rr1 (cv n init c) 0.
+  by rewrite /rr1 -Ea0 /rq /rqp /rbp /= scale0r subr0 -/(i_q0 n c init) Hw0.
+have Ew : w = 1%N \/ w = 2%N by lia.
+case: j hj => [|[|j]] hj; last by lia.
+  split=> //.
+  - by move=> _; rewrite (init_alpha n num_iter mm hc).
+  - by move=> _; rewrite (init_beta n num_iter mm hc) /i_b Er0.
+split.
+- by rewrite (init_q1 n num_iter mm hc) rqS /i_b Er0.
+- by [].
+- by lia.
+Qed.
+
 End Column.
 
 (* ---------------------------------------------------------------------------------------------- *)
@@ -253,6 +404,31 @@ have HGw : G c w rr.1.
   - by lia.
 have [H1 H2 H3 H4] := HF w w0 hw' HGw.
 by split=> // hwm; apply: H4; lia.
+Qed.
+
+(* column c of the final state agrees with the reference recurrence of (Am, start vector of the column) *)
+Lemma prefix_ref j : (j < w)%N ->
+  [/\ q j = rq Am (cv n init c) j, alf j = ra Am (cv n init c) j &
+      ((j.+1 < w)%N -> bet j = rb Am (cv n init c) j)].
+Proof.
+move=> hj.
+have hc := col_of_lt hidx.
+move: hw HG (fun i j => @final_mxT F g o nvec init Hrun Hstart idx i j hidx); rewrite /alf /q /bet /m /r.
+case: (final_cases Hrun Hstart) => [[_ ->]|[_ Hn ->]] /= hw' HG' HT.
+  have HGw : G c w (lz_init_stop ArR n C num_iter (g_mm g) init) by move=> i hi; lia.
+  have HS := @stop_RFIN n C num_iter (g_mm g) c hc Am mm_lin init Hv w w0 hw' HGw j hj.
+  exact: HS.
+have f0 : (0 < num_iter.-1)%N by lia.
+have Hk : (1 + num_iter.-1 = num_iter)%N by lia.
+have [Hs _] := init_tm_inv ArR n C num_iter (g_mm g) init.
+have HF := @loop_RFIN n C num_iter (g_mm g) (lz_gt ArR g) (g_brk g) (g_extra g) c hc Am mm_lin Am_sym (cv n init c)
+             num_iter.-1 1 _ f0 Hk (ltn0Sn 0) Hs (init_INV hc mm_lin Hv) (init_RINV hc mm_lin Hv).
+set rr := lz_loop _ _ _ _ _ _ _ _ _ _ _ in hw' HG' HT HF *.
+have HGw : G c w rr.1.
+  move=> i hi; rewrite /be -HT; first exact: HG'.
+  - by lia.
+  - by lia.
+exact: (HF w w0 hw' HGw j hj).
 Qed.
 
 Lemma prefix_mxQ (x : 'I_n) (i : 'I_w) : Qw x i = q i x ord0.
@@ -405,6 +581,42 @@ split=> //.
 - move=> hwm Hb0.
   have H4 := prefix_invariant Hrun Hstart hidx Hlin Hsym Hv w0 hw HG hwm Hb0.
   by split=> // y; exact: invariant_mx.
+Qed.
+
+(* Theorem (per-member independence).  Exact arithmetic; the closure acts on the column as a symmetric matrix Am.
+   The first w Lanczos vectors of the column (w <= m, betas beta_0 .. beta_{w-2} non-zero) and the leading w x w block
+   of its T ARE the reference recurrence [rq / ra / rb] of (Am, start vector of that column): they do not depend on
+   the other members of the batch, the other start vectors, the batch shape, the budget or the tolerances. *)
+Theorem lanczos_member_independence_rcf (F : rcfType) (g : lz_args F) o nvec init :
+  lanczos_tridiag (ArR F) g = Ok o -> lz_start g = Ok (nvec, init) ->
+  forall idx, (idx < size (o_Q o))%N ->
+    let n := g_n g in let m := o_m o in
+    let c := col_of (prodn (g_batch g)) nvec idx in
+    let Q := nth [::] (o_Q o) idx in let T := nth [::] (o_T o) idx in
+    forall Am : 'M[F]_n,
+    (forall X, cv n (g_mm g X) c = Am *m cv n X c) -> Am^T = Am ->
+    cv n init c != 0 ->
+    forall w, (0 < w <= m)%N ->
+    (forall j, (j.+1 < w)%N -> mget (ArR F) T j j.+1 != 0) ->
+    let v := cv n init c in
+    (forall (x : 'I_n) (j : 'I_w), mx_of n w Q x j = rq Am v j x ord0) /\
+    (forall i j : 'I_w, mx_of w w T i j
+       = (if i.+1 == j :> nat then rb Am v i else 0) + (if i == j :> nat then ra Am v j else 0)
+         + (if i == j.+1 :> nat then rb Am v j else 0)).
+Proof.
+move=> Hrun Hstart idx; rewrite (final_size Hrun Hstart).1 => hidx /= Am Hlin Hsym Hv w.
+have [_ Em _ _] := final_facts Hrun Hstart.
+rewrite Em => /andP[w0 hw] HG.
+have Href := prefix_ref Hrun Hstart hidx Hlin Hsym Hv w0 hw HG.
+split.
+  move=> x j; rewrite (prefix_mxQ Hrun Hstart hidx Hv w0 hw).
+  by have [-> _ _] := Href j (ltn_ord j).
+move=> i j; rewrite mxE (prefix_Tentry Hrun Hstart hidx Hv w0 hw) //.
+have hi := ltn_ord i; have hj := ltn_ord j.
+have [_ -> _] := Href j hj.
+congr (_ + _ + _).
+- case: eqP => // E; have [_ _ ->] := Href i hi => //; lia.
+- case: eqP => // E; have [_ _ ->] := Href j hj => //; lia.
 Qed.
 
 (* ---------------------------------------------------------------------------------------------- *)
